@@ -15,7 +15,7 @@ from . import c07
 from .c07 import DATA, INDEX, tctx
 
 PROP = "C08"
-FLOORS = {"C08.R1": 1, "C08.R2": 4, "C08.R3": 2, "C08.R4": 3, "C08.R5": 4, "C08.R6": 7, "C08.R7": 2}
+FLOORS = {"C08.R1": 1, "C08.R2": 4, "C08.R3": 2, "C08.R4": 3, "C08.R5": 4, "C08.R6": 7, "C08.R7": 2, "C08.R8": 3}
 META = {
     "explanation": "Path-sensitive nullness (a value proved None by the branch condition is never an operand of an ordering "
                    "comparison or arithmetic: package-wide on names, and on symbolic terms in the selector); bound roles in the "
@@ -443,15 +443,28 @@ def _name_spans(col, rule="C08.R7"):
 
 
 def check(col: Collector):
-    _none_operands(col)
-    _bound_roles(col)
-    _table_order(col)
+    with col.rule():
+        _none_operands(col)
+    with col.rule():
+        _bound_roles(col)
+    with col.rule():
+        _table_order(col)
     sub = Collector(col.repo, "C08", col.tier)
-    c07._parser(sub, rule="C08.R4")
-    c07._entry_points(sub, rule="C08.R4")
+    with col.rule():
+        c07._parser(sub, rule="C08.R4")
+    with col.rule():
+        c07._entry_points(sub, rule="C08.R4")
     for o in sub.obs:
         if "_get_row_cache" in o.construct or o.construct.endswith("#cache-read-only-through-resolver"):
             col.obs.append(o)
-    _regex(col)
-    _routing(col)
-    _name_spans(col)
+    with col.rule():
+        _regex(col)
+    with col.rule():
+        _routing(col)
+    with col.rule():
+        _name_spans(col)
+    from .common import shared
+    with col.rule():
+        shared(col, "C08.R8", [c07._make_cache],
+               why="'name::count', name spans and name lists resolve through the (name, occurrence) -> row cache: occurrences must be "
+                   "numbered by a scan of the index column in table order")
